@@ -106,7 +106,7 @@ Fixpoint chars_in (l : text) (b : Z) : Z :=
   end.
 
 Definition get_charno (s : text) (lineno col : Z) : option Z :=
-  match py_index (line_starts s) (lineno - 1) with
+  match py_index (line_starts s) (Z.max (lineno - 1) 0) with   (* max(lineno - 1, 0): repair 58d55a0 *)
   | None => None
   | Some st =>
       if is_ascii s || (col <=? 0) then Some (st + col)
